@@ -1292,3 +1292,8 @@ def try_definitional(E, e, env):
     finally:
         E.st.env = saved_env
         E.spec_mode -= 1
+
+
+@method('str.format')
+def str_format(E, s, args, node):
+    return Opaque(z3.Const(fresh_name('fmt'), ValSort), 'formatted string')
